@@ -153,8 +153,13 @@ impl KBucket {
         }
     }
 
-    fn remove_node(&mut self, node_id: &NodeId) {
-        self.nodes.retain(|n| &n.id != node_id);
+    fn remove_node(&mut self, node_id: &NodeId) -> Option<NodeInfo> {
+        let pos = self.nodes.iter().position(|n| &n.id == node_id)?;
+        Some(self.nodes.remove(pos))
+    }
+
+    fn find_node(&self, node_id: &NodeId) -> Option<&NodeInfo> {
+        self.nodes.iter().find(|n| &n.id == node_id)
     }
 
     fn get_nodes(&self) -> &[NodeInfo] {
@@ -192,9 +197,14 @@ impl KademliaRoutingTable {
         self.buckets[bucket_index].add_node(node)
     }
 
-    fn remove_node(&mut self, node_id: &NodeId) {
+    fn remove_node(&mut self, node_id: &NodeId) -> Option<NodeInfo> {
         let bucket_index = self.get_bucket_index(node_id);
-        self.buckets[bucket_index].remove_node(node_id);
+        self.buckets[bucket_index].remove_node(node_id)
+    }
+
+    fn find_node(&self, node_id: &NodeId) -> Option<&NodeInfo> {
+        let bucket_index = self.get_bucket_index(node_id);
+        self.buckets[bucket_index].find_node(node_id)
     }
 
     fn find_closest_nodes(&self, key: &DhtKey, count: usize) -> Vec<NodeInfo> {
@@ -425,7 +435,7 @@ impl GeographicDiversityEnforcer {
         *self.region_counts.entry(region).or_insert(0) += 1;
     }
 
-    fn _remove(&mut self, region: GeographicRegion) {
+    fn remove(&mut self, region: GeographicRegion) {
         if let Some(count) = self.region_counts.get_mut(&region) {
             *count = count.saturating_sub(1);
         }
@@ -1238,9 +1248,14 @@ impl DhtCoreEngine {
 
     /// Handle node failure
     pub async fn handle_node_failure(&mut self, failed_node: NodeId) -> Result<()> {
-        // Remove from routing table
-        let mut routing = self.routing_table.write().await;
-        routing.remove_node(&failed_node);
+        // Remove from routing table and give the node's diversity slots back
+        let removed = {
+            let mut routing = self.routing_table.write().await;
+            routing.remove_node(&failed_node)
+        };
+        if let Some(node) = removed {
+            self.release_diversity_slots(&node.address).await;
+        }
 
         // Schedule repairs for affected data
         let _replication = self.replication_manager.write().await;
@@ -1254,10 +1269,13 @@ impl DhtCoreEngine {
     /// This is called when a node fails security validation or is detected
     /// as malicious through Sybil/collusion detection.
     pub async fn evict_node(&self, node_id: &NodeId, reason: EvictionReason) -> Result<()> {
-        // 1. Remove from routing table
-        {
+        // 1. Remove from routing table and give the node's diversity slots back
+        let removed = {
             let mut routing = self.routing_table.write().await;
-            routing.remove_node(node_id);
+            routing.remove_node(node_id)
+        };
+        if let Some(node) = removed {
+            self.release_diversity_slots(&node.address).await;
         }
 
         // 2. Update security metrics based on eviction reason
@@ -1354,77 +1372,120 @@ impl DhtCoreEngine {
             }
         }
 
-        // 2. Security Check: IP Diversity (both IPv4 and IPv6)
-        {
-            // Parse IP address from node.address string
-            // address comes as "ip:port" or just "ip"
-            let ip_addr: Option<IpAddr> = if let Ok(socket) = node.address.parse::<SocketAddr>() {
-                Some(socket.ip())
-            } else {
-                node.address.parse::<IpAddr>().ok()
-            };
-
-            if let Some(ip) = ip_addr {
-                let mut enforcer = self.ip_diversity_enforcer.write().await;
-                match enforcer.analyze_unified(ip) {
-                    Ok(analysis) => {
-                        if !enforcer.can_accept_unified(&analysis) {
-                            tracing::warn!("Node rejected due to IP diversity limits: {:?}", ip);
-                            return Err(anyhow::anyhow!(
-                                "IP diversity limits exceeded for address {ip}"
-                            ));
-                        }
-                        // Record valid node - propagate error as this is a critical security operation
-                        enforcer.add_unified(&analysis).map_err(|e| {
-                            tracing::error!(
-                                "Failed to record node IP for diversity tracking: {:?}",
-                                e
-                            );
-                            anyhow::anyhow!("IP diversity tracking failed: {e:?}")
-                        })?;
-                    }
-                    Err(e) => {
-                        tracing::debug!("Could not analyze IP {:?}: {:?}", ip, e);
-                        // Continue without IP diversity check if analysis fails
-                    }
-                }
-            }
+        // An id that is already listed is refreshed by the bucket: its present slots are given back
+        // first and taken again if the new admission fails, so one node never holds two sets.
+        let previous_address = {
+            let routing = self.routing_table.read().await;
+            routing.find_node(&node.id).map(|n| n.address.clone())
+        };
+        if let Some(prev) = &previous_address {
+            self.release_diversity_slots(prev).await;
         }
 
-        // 3. Security Check: Geographic Diversity
-        {
-            // Parse IP address from node.address string (reuse parsed IP from above)
-            let ip_addr: Option<IpAddr> = if let Ok(socket) = node.address.parse::<SocketAddr>() {
-                Some(socket.ip())
-            } else {
-                node.address.parse::<IpAddr>().ok()
-            };
-
-            if let Some(ip) = ip_addr {
-                let region = GeographicRegion::from_ip(ip);
-                let mut enforcer = self.geographic_diversity_enforcer.write().await;
-                if !enforcer.can_accept(region) {
-                    tracing::warn!(
-                        "Node rejected due to geographic diversity limits: {:?} in region {:?}",
-                        ip,
-                        region
-                    );
-                    return Err(anyhow::anyhow!(
-                        "Geographic diversity limits exceeded for region {region:?} (IP: {ip})"
-                    ));
+        // 2.-4. diversity gates, then the bucket insert; a failure at any step takes no slots
+        let address = node.address.clone();
+        let result = match self.take_diversity_slots(&address).await {
+            Ok(()) => {
+                let inserted = {
+                    let mut routing = self.routing_table.write().await;
+                    routing.add_node(node)
+                };
+                if inserted.is_err() {
+                    self.release_diversity_slots(&address).await;
                 }
-                enforcer.add(region);
+                inserted
             }
+            Err(e) => Err(e),
+        };
+        if result.is_err()
+            && let Some(prev) = &previous_address
+        {
+            // the old entry stays listed: it keeps its slots
+            let _ = self.take_diversity_slots(prev).await;
         }
-
-        // 4. Add to routing table
-        let mut routing = self.routing_table.write().await;
-        routing.add_node(node)?;
 
         // 5. Update Metrics
         // (Placeholder: Add metric for new node joining if available)
 
+        result
+    }
+
+    /// IP address of a node address string: "ip:port", "ip", or the rendered form
+    /// "ip:port (four-words)" that `NetworkAddress::to_string()` produces.
+    fn parse_node_ip(address: &str) -> Option<IpAddr> {
+        let head = address.split_whitespace().next().unwrap_or(address);
+        if let Ok(socket) = head.parse::<SocketAddr>() {
+            Some(socket.ip())
+        } else {
+            head.parse::<IpAddr>().ok()
+        }
+    }
+
+    /// Security checks 2 (IP diversity) and 3 (geographic diversity): both counters are
+    /// incremented, or neither.
+    async fn take_diversity_slots(&self, address: &str) -> Result<()> {
+        let Some(ip) = Self::parse_node_ip(address) else {
+            return Ok(());
+        };
+        let mut enforcer = self.ip_diversity_enforcer.write().await;
+        let analysis = match enforcer.analyze_unified(ip) {
+            Ok(analysis) => Some(analysis),
+            Err(e) => {
+                tracing::debug!("Could not analyze IP {:?}: {:?}", ip, e);
+                // Continue without IP diversity check if analysis fails
+                None
+            }
+        };
+        if let Some(analysis) = &analysis {
+            if !enforcer.can_accept_unified(analysis) {
+                tracing::warn!("Node rejected due to IP diversity limits: {:?}", ip);
+                return Err(anyhow::anyhow!(
+                    "IP diversity limits exceeded for address {ip}"
+                ));
+            }
+            // Record valid node - propagate error as this is a critical security operation
+            enforcer.add_unified(analysis).map_err(|e| {
+                tracing::error!(
+                    "Failed to record node IP for diversity tracking: {:?}",
+                    e
+                );
+                anyhow::anyhow!("IP diversity tracking failed: {e:?}")
+            })?;
+        }
+
+        let region = GeographicRegion::from_ip(ip);
+        let mut geo = self.geographic_diversity_enforcer.write().await;
+        if !geo.can_accept(region) {
+            tracing::warn!(
+                "Node rejected due to geographic diversity limits: {:?} in region {:?}",
+                ip,
+                region
+            );
+            if let Some(analysis) = &analysis {
+                enforcer.remove_unified(analysis);
+            }
+            return Err(anyhow::anyhow!(
+                "Geographic diversity limits exceeded for region {region:?} (IP: {ip})"
+            ));
+        }
+        geo.add(region);
         Ok(())
+    }
+
+    /// Inverse of `take_diversity_slots` for a node that leaves the routing table
+    /// (or whose insertion failed).
+    async fn release_diversity_slots(&self, address: &str) {
+        let Some(ip) = Self::parse_node_ip(address) else {
+            return;
+        };
+        {
+            let mut enforcer = self.ip_diversity_enforcer.write().await;
+            if let Ok(analysis) = enforcer.analyze_unified(ip) {
+                enforcer.remove_unified(&analysis);
+            }
+        }
+        let mut geo = self.geographic_diversity_enforcer.write().await;
+        geo.remove(GeographicRegion::from_ip(ip));
     }
 }
 
